@@ -62,7 +62,7 @@ def lib_signature(p, segs):
 	return calc_signature(kspec_of(p), contigs_of(segs))
 
 
-def build(d, params=('P0',), ref_names=None, taxa=None, qlabels=None):
+def build(d, params=('P0',), ref_names=None, taxa=None, qlabels=None, pathlike_sig_ids=False):
 	"""Create the database directory, query / reference FASTA files, list files and signature files under d."""
 	import numpy as np
 	from gambit.sigs.base import SignatureArray, AnnotatedSignatures, SignaturesMeta, dump_signatures
@@ -125,6 +125,13 @@ def build(d, params=('P0',), ref_names=None, taxa=None, qlabels=None):
 		fixtures.write_fasta(p, contigs_of(REFS[i]), gz=p.endswith('.gz'))
 		fx.rsame[lab] = (p, i)
 	labels = list(QUERIES) if qlabels is None else qlabels
+	rsig_ids = list(ref_names)
+	if pathlike_sig_ids:
+		# stored IDs that look like paths / file names: a signature file's IDs are labels as they are
+		shapes = ['{}', 'batch7/{}.fa', '{}.fasta.gz', 'refseq/{}']
+		labels = [shapes[i % 4].format(l) for i, l in enumerate(labels)]
+		rsig_ids = [(['genbank/{}.fna', '{}', '{}.gz'][i % 3]).format(r) for i, r in enumerate(ref_names)]
+	fx.qsig_ids, fx.rsig_ids = labels, rsig_ids
 	for pname in params:
 		ks = kspec_of(pname)
 		qs = [lib_signature(pname, QUERIES[l]) for l in QUERIES]
@@ -133,7 +140,7 @@ def build(d, params=('P0',), ref_names=None, taxa=None, qlabels=None):
 		fx.qsig[pname] = p
 		rs = [lib_signature(pname, s) for s in REFS]
 		p = os.path.join(d, f'refs-{pname}.gs')
-		dump_signatures(p, AnnotatedSignatures(SignatureArray(rs, ks, dtype=ks.index_dtype), ref_names, SignaturesMeta(id='r')))
+		dump_signatures(p, AnnotatedSignatures(SignatureArray(rs, ks, dtype=ks.index_dtype), rsig_ids, SignaturesMeta(id='r')))
 		fx.rsig[pname] = p
 	return fx
 
